@@ -206,27 +206,69 @@ def run(ctx: Ctx) -> None:
     sw = ctx.fn(CLS + "._sweep")
     scfg = cfg_of(sw.node)
     dels = [n for n in walk_scope(sw.node) if isinstance(n, ast.Delete) or (isinstance(n, ast.Expr) and isinstance(n.value, ast.Call) and last_attr(n.value) in ("pop", "popitem"))]
-    one(dels, "deletion in _sweep", sw)
+    bulk = [n for n in walk_scope(sw.node) if (isinstance(n, ast.Expr) and isinstance(n.value, ast.Call) and last_attr(n.value) == "clear")
+            or (isinstance(n, (ast.Assign, ast.AnnAssign)) and any(isinstance(t, ast.Attribute) and t.attr == FIELD for t in (n.targets if isinstance(n, ast.Assign) else [n.target])))]
+    if not dels and not bulk:
+        raise AnalysisError(f"anchor=deletion in _sweep: none found in {sw.fq}")
     now_p = [a.arg for a in sw.node.args.args if a.arg != "self"]
+    # a bulk removal (clear / rebinding the table) drops entries whose own expiry was not looked at.  It can only be
+    # justified by "the newest entry is expired, so all are", which needs insertion order == expiry order; the clock
+    # is read by check_and_add *before* it takes the lock, so two threads can insert in the opposite order of their
+    # clock readings and a live entry can sit in front of an expired one.
+    for b in bulk:
+        clk = [n for n in walk_scope(caa.node) if isinstance(n, ast.Assign) and isinstance(n.value, ast.Call) and last_attr(n.value) == "_clock"]
+        clock_locked = bool(clk) and all(LOCK in ls.held(n) for n in clk)
+        if clock_locked:
+            raise AnalysisError("C23: bulk removal in _sweep with the clock read under the lock: ordering argument not interpreted")
+        ctx.fail("RF-DOM", "sweep-only-expired", sw, b, f"`{txt(b)[:60]}` drops every entry on the strength of one entry's expiry: the clock is read before the lock is taken, so insertion order is not "
+                 "expiry order and an entry that is still inside its window can be dropped with the expired ones (its replay is then accepted)")
     conds = [n for n in walk_scope(sw.node) if isinstance(n, ast.If) and now_p and now_p[0] in names_in(n.test)]
-    if not conds:
-        ctx.fail("RF-DOM", "sweep-only-expired", sw, dels[0], "the sweep deletes without comparing the entry's expiry with now")
-    else:
-        cnd = conds[0]
-        others = sorted(names_in(cnd.test) - {now_p[0], 'self'})
-        if len(others) != 1:
+    loop_heads = {i for n in walk_scope(sw.node) if isinstance(n, (ast.While, ast.For)) for i in scfg.done(n)}
+
+    def item_binding(name: str) -> ast.AST | None:
+        for n in walk_scope(sw.node):
+            if isinstance(n, ast.Assign) and any(isinstance(x, ast.Name) and x.id == name for t in n.targets for x in ast.walk(t)):
+                return n
+            if isinstance(n, (ast.For,)) and any(isinstance(x, ast.Name) and x.id == name for x in ast.walk(n.target)):
+                return n
+        return None
+
+    for d in dels:
+        if not conds:
+            ctx.fail("RF-DOM", "sweep-only-expired", sw, d, "the sweep deletes without comparing the entry's expiry with now")
+            continue
+        justified = False
+        undecided = False
+        for cnd in conds:
+            others = sorted(names_in(cnd.test) - {now_p[0], "self"})
+            if len(others) != 1:
+                undecided = True
+                continue
+            ev = others[0]
+            env = {ev: 10.0, now_p[0]: 5.0}
+            for a in ast.walk(cnd.test):
+                if isinstance(a, ast.Attribute):
+                    env[txt(a)] = 30.0  # any configuration attribute (ttl, skew): a positive number
+            live_label = "T" if mini_eval(cnd.test, env) else "F"
+            live_targets = {v for (_u, v) in scfg.test_edges(cnd, live_label)}
+            if scfg.reach(live_targets, loop_heads) & scfg.done(d):
+                continue
+            # the deleted key and the tested expiry belong to the same entry
+            keyn = None
+            if isinstance(d, ast.Delete) and isinstance(d.targets[0], ast.Subscript) and isinstance(d.targets[0].slice, ast.Name):
+                keyn = d.targets[0].slice.id
+            elif isinstance(d, ast.Expr) and isinstance(d.value, ast.Call) and d.value.args and isinstance(d.value.args[0], ast.Name):
+                keyn = d.value.args[0].id
+            if keyn is None:
+                undecided = True  # popitem(): which entry goes depends on position
+                continue
+            if item_binding(keyn) is not None and item_binding(keyn) is item_binding(ev):
+                justified = True
+                break
+        if not justified and undecided:
             raise AnalysisError("C23: unsupported sweep guard")
-        ev = others[0]
-        env = {ev: 10.0, now_p[0]: 5.0}
-        for a in ast.walk(cnd.test):
-            if isinstance(a, ast.Attribute):
-                env[txt(a)] = 30.0  # any configuration attribute (ttl, skew): a positive number
-        live_label = "T" if mini_eval(cnd.test, env) else "F"
-        live_targets = {v for (_u, v) in scfg.test_edges(cnd, live_label)}
-        loop_heads = {i for n in walk_scope(sw.node) if isinstance(n, (ast.While, ast.For)) for i in scfg.done(n)}
-        r = scfg.reach(live_targets, loop_heads)
-        ctx.check(not (r & scfg.done(dels[0])), "RF-DOM", "sweep-only-expired", sw, cnd,
-                  ok=f"an entry with expiry > now is never deleted by the sweep (`{txt(cnd.test)}`)",
+        ctx.check(justified, "RF-DOM", "sweep-only-expired", sw, d,
+                  ok="an entry is deleted by the sweep only after its own expiry was compared with now and found in the past",
                   bad="the sweep can delete an entry whose expiry is still in the future (accepted nonce forgotten inside its window)")
     sweep_calls = [c for c in walk_scope(caa.node) if isinstance(c, ast.Call) and last_attr(c) == "_sweep"]
     for c in sweep_calls:
